@@ -95,6 +95,28 @@ def nestedSession (h2on : Bool) (outerOffers innerOffers : List Bytes) (prefs : 
     (outer, up, negotiate false pin (recordedAlpn up) h2on innerOffers)
   else (outer, none, negotiate false pin none h2on innerOffers)
 
+/-! ### which client handshake is a secure web proxy's outer one (`tls_start_client`'s test on `context.layers`) -/
+
+inductive LayerKind where
+  | httpProxy | httpUpstreamProxy | otherMode | clientTls | serverTls | http | other
+deriving DecidableEq, Repr
+
+/-- `len(layers) >= 2 and isinstance(layers[0], modes.HttpProxy) and not any(isinstance(x, ClientTLSLayer) for x in layers[2:])` -/
+def isSwpOuter (layers : List LayerKind) : Bool :=
+  decide (2 ≤ layers.length) && (layers.head? == some .httpProxy) && !((layers.drop 2).any (· == .clientTls))
+
+/-- `AppData.client_alpn` as `tls_start_client` computes it from the layer stack and `client.alpn` -/
+def startClientPin (layers : List LayerKind) (clientAlpn : Option Bytes) : Option Bytes :=
+  clientOverride (isSwpOuter layers) clientAlpn
+
+/-- `NextLayer._setup_explicit_http_proxy`: the stack below an explicit HTTP proxy mode, built before any handshake -/
+def explicitProxyStack (mode : LayerKind) (startsLikeTls : Bool) : List LayerKind :=
+  [mode] ++ (if startsLikeTls then [.clientTls] else []) ++ [.http]
+
+/-- the client handshake mitmproxy performs for the TLS layer that is the LAST `clientTls` of `layers` -/
+def negotiateL (layers : List LayerKind) (clientAlpn s : Option Bytes) (h2on : Bool) (offers : List Bytes) : Option Bytes :=
+  alpnSelect (startClientPin layers clientAlpn) s h2on offers
+
 /-! ### class instance and the regenerated table -/
 
 abbrev Cfg := Option Nat × Upstream Nat × Bool
